@@ -171,16 +171,18 @@ def gen_mod_case(rng):
     for a in atoms:
         residues.setdefault((a['resid'], a['resname'], a['chain']), []).append(a)
     modmaps = []
+    seen_mods = {}
+    twin = rng.random() < 0.35        # the same particle-adding modification on every residue of a kind
     next_id = iter(range(1, 50))
     for (resid, kind, chain), ats in residues.items():
-        if kind not in by_kind or rng.random() < 0.5:
+        if kind not in by_kind or (not twin and rng.random() < 0.35):
             continue
         bm = by_kind[kind]
         mapped_names = {bm['from'][i]['name'] for i, _ in bm['map']}
         cand = [a for a in ats if a['name'] in mapped_names and not a['H']]
         if not cand:
             continue
-        anchor = rng.choice(cand)
+        anchor = min(cand, key=lambda a: a['name']) if twin else rng.choice(cand)
         # the particle the anchor atom contributes to (first target of its mapping entry)
         fidx = [n['key'] for n in bm['from'] if n['name'] == anchor['name']][0]
         tgt_key = dict((k, v) for k, v in bm['map'])[fidx][0][0]
@@ -230,6 +232,17 @@ def gen_mod_case(rng):
                 modmaps.append({'names': [mids[j] for j in S], 'from': frm, 'fedges': fedges, 'to': to_nodes, 'tedges': tedges,
                                 'tinters': tinters, 'map': mapping})
             continue
+        again = seen_mods.get((kind, anchor['name']))
+        if again is not None and (twin or rng.random() < 0.7):
+            # the same modification on another residue of the same kind: its mapping is placed a second time
+            mid = again
+            xk = next(free)
+            atoms.append({'key': xk, 'resid': resid, 'name': 9, 'resname': kind, 'H': False, 'chain': chain})
+            bonds.append([anchor['key'], xk])
+            ptm.append(xk)
+            for a in ats + [atoms[-1]]:
+                labels.setdefault(a['key'], []).append(mid)
+            continue
         mid = next(next_id)
         xk = next(free)
         atoms.append({'key': xk, 'resid': resid, 'name': 9, 'resname': kind, 'H': False, 'chain': chain})
@@ -237,9 +250,10 @@ def gen_mod_case(rng):
         ptm.append(xk)
         for a in ats + [atoms[-1]]:
             labels.setdefault(a['key'], []).append(mid)
-        style = rng.choice(['new', 'rename', 'both', 'onto', 'nomap', 'badname'])
+        style = rng.choice(['new', 'both']) if twin else rng.choice(['new', 'rename', 'both', 'onto', 'nomap', 'badname', 'new', 'both'])
         if style == 'nomap':
             continue
+        seen_mods[(kind, anchor['name'])] = mid
         to_nodes = [{'key': 0, 'name': tgt['name'] if style != 'badname' else 98, 'new': False,
                      'rename': (70 + mid) if style in ('rename', 'both') else None}]
         mapping = [[0, [[0, 4]]]]
